@@ -644,11 +644,8 @@ func one(c *lib.Ctx, in *input, model bool) {
 	js := jsonOf(in, obs)
 	if model {
 		c.Case(lib.App("CFind", lib.StrList(in.BuildFileNames), lib.StrList(in.Blacklist), lib.StrList(in.Experimental),
-			lib.Str(in.Root), lib.Str(in.Prefix), coqNode(sub), lib.StrList(obs.Files)), js, keyOf(in), nontrivial(in))
-		if in.Prefix == "" {
-			c.Case(lib.App("CExpand", lib.StrList(in.BuildFileNames), lib.StrList(in.Blacklist), lib.StrList(in.Experimental),
-				lib.Str(in.Root), coqNode(sub), lib.StrList(obs.Labels)), js, "x"+keyOf(in), nontrivial(in))
-		}
+			lib.Str(in.Root), lib.Str(in.Prefix), coqNode(sub), lib.StrList(obs.Files), lib.Opt(in.Prefix == "", lib.StrList(obs.Labels))),
+			js, keyOf(in), nontrivial(in))
 	} else {
 		c.Eval(js, keyOf(in), nontrivial(in))
 	}
@@ -676,7 +673,15 @@ func main() {
 			"distinct = distinct (configuration, directory, tree); non-trivial = >= 2 directories with a BUILD file under the directory and >= 1 excluded directory")
 		gologging.SetLevel(gologging.CRITICAL, "plz")
 		var err error
-		scratch, err = os.MkdirTemp("", "c22-")
+		// thousands of small trees are created and removed: use a memory file system when there is one
+		tmp := ""
+		if st, e := os.Stat("/dev/shm"); e == nil && st.IsDir() {
+			tmp = "/dev/shm"
+		}
+		scratch, err = os.MkdirTemp(tmp, "c22-")
+		if err != nil {
+			scratch, err = os.MkdirTemp("", "c22-")
+		}
 		must(err)
 		defer os.RemoveAll(scratch)
 		linkTarget = filepath.Join(scratch, "linktarget")
@@ -707,17 +712,17 @@ func main() {
 		}
 
 		// 2. random trees without plain files that are named like excluded directories: model + oracle
-		n := c.Scale(500, 6000)
+		n := c.Scale(260, 6000)
 		for i := 0; i < n; i++ {
 			one(c, genInput(c.Rng.Fork(), false), true)
 		}
 		// 3. random trees with such files (and blacklisted BUILD file names): model + oracle
-		n = c.Scale(200, 3000)
+		n = c.Scale(100, 3000)
 		for i := 0; i < n; i++ {
 			one(c, genInput(c.Rng.Fork(), true), true)
 		}
 		// 4. oracle only
-		n = c.Scale(1500, 30000)
+		n = c.Scale(2500, 40000)
 		for i := 0; i < n; i++ {
 			r := c.Rng.Fork()
 			one(c, genInput(r, r.Chance(1, 4)), false)
